@@ -1,5 +1,8 @@
 import Dmn.Lemmas.TemporalLit
 import Dmn.Lemmas.TemporalGrammar
+import Dmn.Lemmas.TemporalCanon
+import Dmn.Lemmas.TemporalZone
+import Dmn.Lemmas.TemporalMachineOps
 
 /-!
 # C14 — temporal literals denote exactly what is written and print back
@@ -114,6 +117,95 @@ theorem dur_normal_form_instances :
 /-- Years-and-months normal form: months below 12, total preserved. -/
 theorem ymdur_normal_form (n : Int) : n.natAbs % 12 < 12 ∧ (n.natAbs / 12) * 12 + n.natAbs % 12 = n.natAbs := by
   omega
+
+/-! ## `print (parse s)` is the canonical text of the value -/
+
+/-- Whatever text `date("…")` accepts, the text of its value reads back as the same value: all the
+texts of one date (`-0000-01-01`, `0000-01-01`) print as one text, a fixed point of print ∘ parse. -/
+theorem date_print_parse_canonical (cs : List Char) (d : Date) (h : parseDate cs = some d) :
+    parseDate (printDate d) = some d :=
+  parseDate_canonical h
+
+/-- The same for times: `10:00:00.50+02:00:00`, `10:00:00.5000000001+02:00` and `10:00:00.5+02:00`
+are one value and print as the last text; `…+00:00` prints as `…Z`. -/
+theorem time_print_parse_canonical (zk : List Char → Bool) (cs : List Char) (t : Time)
+    (h : parseTime zk cs = some t) : parseTime zk (printTime t) = some t :=
+  parseTime_canonical zk h
+
+example : (parseTime (fun _ => true) ['1', '0', ':', '0', '0', ':', '0', '0', '.', '5', '0', '+', '0', '2', ':', '0', '0', ':', '0', '0']).map printTime =
+    some ['1', '0', ':', '0', '0', ':', '0', '0', '.', '5', '+', '0', '2', ':', '0', '0'] ∧
+    (parseTime (fun _ => true) ['1', '0', ':', '0', '0', ':', '0', '0', '+', '0', '0', ':', '0', '0']).map printTime =
+    some ['1', '0', ':', '0', '0', ':', '0', '0', 'Z'] := by decide
+
+theorem datetime_print_parse_canonical (zk : List Char → Bool) (cs : List Char) (dt : DateTime)
+    (h : parseDateTime zk cs = some dt) : parseDateTime zk (printDateTime dt) = some dt :=
+  parseDateTime_canonical zk h
+
+/-- Years-and-months durations: `P14M`, `P1Y2M`, `P0Y14M` are one value, printed `P1Y2M`. -/
+theorem ymdur_print_parse_canonical (cs : List Char) (n : Int) (h : parseYmDur cs = .ok n) :
+    parseYmDur (printYmDur n) = .ok n :=
+  parseYmDur_canonical h
+
+-- FULL STATEMENT (not provable of the current code, finding F28-dtd-huge):
+--   parseDtDur cs = .ok n → parseDtDur (printDtDur n) = .ok n
+/-- Days-and-time durations: whatever text is accepted, the normal form of its value reads back as the
+same value — when the days of the normal form fit `u64` (they do unless the components of the text
+add up to more than `u64::MAX` days). -/
+theorem dtdur_print_parse_canonical_partial (cs : List Char) (n : Int) (_h : parseDtDur cs = .ok n)
+    (hfit : n.natAbs / 86400000000000 ≤ u64Max) : parseDtDur (printDtDur n) = .ok n :=
+  parseDtDur_printDtDur n hfit
+
+/-- `P18446744073709551615DT24H` is accepted; its normal form `P18446744073709551616D` is not
+(finding F28-dtd-huge). -/
+theorem dtdur_print_parse_canonical_counterexample :
+    parseDtDur ['P', '1', '8', '4', '4', '6', '7', '4', '4', '0', '7', '3', '7', '0', '9', '5', '5', '1', '6', '1', '5', 'D', 'T', '2', '4', 'H'] =
+      .ok 1593798687968505259622400000000000 ∧
+    printDtDur 1593798687968505259622400000000000 =
+      ['P', '1', '8', '4', '4', '6', '7', '4', '4', '0', '7', '3', '7', '0', '9', '5', '5', '1', '6', '1', '6', 'D'] ∧
+    parseDtDur (printDtDur 1593798687968505259622400000000000) = .reject := by decide
+
+/-! ## The value ranges of the text form of days-and-time durations -/
+
+/-- Negative durations shorter than a second keep their sign (`-PT0.5S`, `-PT0.000000001S`: the seeded
+change C18-18 took the sign from the whole seconds), durations of 2⁶⁴ ns and more keep their days (the
+seeded change C14-19 computed the components in `u64`), up to the largest literal
+(`u64::MAX` days, 23:59:59.999999999). -/
+theorem dtdur_roundtrip_ranges :
+    printDtDur (-500000000) = ['-', 'P', 'T', '0', '.', '5', 'S'] ∧
+    parseDtDur (printDtDur (-500000000)) = .ok (-500000000) ∧
+    printDtDur (-1) = ['-', 'P', 'T', '0', '.', '0', '0', '0', '0', '0', '0', '0', '0', '1', 'S'] ∧
+    parseDtDur (printDtDur (-1)) = .ok (-1) ∧
+    printDtDur 18446744073709551616 =
+      ['P', '2', '1', '3', '5', '0', '3', 'D', 'T', '2', '3', 'H', '3', '4', 'M', '3', '3', '.', '7', '0', '9', '5', '5', '1', '6', '1', '6', 'S'] ∧
+    parseDtDur (printDtDur 18446744073709551616) = .ok 18446744073709551616 ∧
+    parseDtDur (printDtDur (-18446744073709551616)) = .ok (-18446744073709551616) ∧
+    parseDtDur (printDtDur 1593798687968505259622399999999999) = .ok 1593798687968505259622399999999999 := by
+  decide
+
+/-- **The text form computed with the machine integers of the code** (`i128` value, `abs`, four rounds of
+`x = ns / UNIT; ns -= x * UNIT`, in a build with and without overflow checks) is a literal that reads back
+as the same value: for every `i128` value except `i128::MIN` (whose `abs` overflows) whose days fit
+`u64`. -/
+theorem dtdur_roundtrip_machine (m : IntMode) (n : Int)
+    (h : Dmn.TemporalMachine.tI128.fits n = true) (hn : n ≠ Dmn.TemporalMachine.tI128.lo)
+    (hfit : n.natAbs / 86400000000000 ≤ u64Max) :
+    ∃ text, Dmn.TemporalMachine.dtdPrint m n = .ok text ∧ parseDtDur text = .ok n :=
+  ⟨printDtDur n, Dmn.TemporalMachine.dtdPrint_eq m n h hn, parseDtDur_printDtDur n hfit⟩
+
+example : Dmn.TemporalMachine.tI128.fits (-18446744073709551616) = true ∧
+    (-18446744073709551616 : Int) ≠ Dmn.TemporalMachine.tI128.lo ∧
+    (-18446744073709551616 : Int).natAbs / 86400000000000 ≤ u64Max := by decide
+
+/-- **The width matters**: the same statements with the value narrowed to `u64` first
+(`self.0.unsigned_abs() as u64`, the seeded change C14-19) print every duration below 2⁶⁴ ns alike —
+all that the repository's tests contain — and 2⁶⁴ ns (213503 days 23:34:33.709551616) as `PT0S`,
+which reads back as another value. -/
+theorem display_needs_i128 :
+    (∀ n : Int, n.natAbs < 18446744073709551616 → Dmn.TemporalMachine.dtdPrintU64 n = printDtDur n) ∧
+    Dmn.TemporalMachine.dtdPrintU64 18446744073709551616 = ['P', 'T', '0', 'S'] ∧
+    parseDtDur (Dmn.TemporalMachine.dtdPrintU64 18446744073709551616) = .ok 0 ∧
+    Dmn.TemporalMachine.dtdPrintU64 18446744073709551616 ≠ printDtDur 18446744073709551616 := by
+  refine ⟨fun n hn => Dmn.TemporalMachine.dtdPrintU64_eq n hn, by decide, by decide, by decide⟩
 
 /-! ## The value denoted is what is written -/
 
@@ -249,6 +341,65 @@ theorem non_ascii_is_not_a_ym_duration (cs : List Char) (c : Char) (hc : c ∈ c
   have := ht.ascii c hc
   omega
 
+/-- `duration("…")`, days-and-time form: accepted exactly when the text is
+`[-]P[nD][T[nH][nM][n[.f]S]]` — each present component a non-empty run of the digits `0`…`9`, after a
+`T` at least one component, a fraction only with seconds — and `dtFinish` (every component within
+`u64`, at least one of them) gives the value `±(d·86400e9 + h·3600e9 + m·60e9 + s·1e9 + fraction)` on
+the written components. (The fraction may be an empty run: finding F25-dur-emptyfrac, pinned by the
+repository's tests; the strict grammar is the same statement with `fs ≠ some []`.) -/
+theorem dtdur_literal_grammar (cs : List Char) (n : Int) :
+    parseDtDur cs = .ok n ↔
+      ∃ neg ds hs ms ss fs, DtdText cs neg ds hs ms ss fs ∧ dtFinish neg ds (some (hs, ms, ss, fs)) = .ok n :=
+  parseDtDur_iff cs n
+
+example : DtdText ['-', 'P', '1', 'D', 'T', '2', 'H', '4', '.', '5', 'S'] true (some ['1']) (some ['2']) none
+      (some ['4']) (some ['5']) ∧
+    dtFinish true (some ['1']) (some (some ['2'], none, some ['4'], some ['5'])) = .ok (-93604500000000) := by
+  have one : ∀ c : Char, isDigit c = true → (Digits [c] ∧ [c] ≠ []) :=
+    fun c hc => ⟨by intro x hx; simp at hx; subst hx; exact hc, by simp⟩
+  refine ⟨⟨rfl, ?_, ?_, ?_, ?_, ?_, by intro h; cases h⟩, by decide⟩
+  · intro d hd; injection hd with hd; subst hd; exact one '1' (by decide)
+  · intro d hd; injection hd with hd; subst hd; exact one '2' (by decide)
+  · intro d hd; cases hd
+  · intro d hd; injection hd with hd; subst hd; exact one '4' (by decide)
+  · intro f hf; injection hf with hf; subst hf; exact (one '5' (by decide)).1
+
+/-- No text with a character outside ASCII is a duration: `duration("…")` is null, for the
+years-and-months and the days-and-time form alike, wherever the character stands. -/
+theorem non_ascii_is_not_a_duration (cs : List Char) (c : Char) (hc : c ∈ cs) (h : 128 ≤ c.toNat) :
+    bifDuration cs = .null :=
+  bifDuration_non_ascii cs c hc h
+
+/-- An Arabic-Indic five as the seconds, a full-width `T`. -/
+example : bifDuration ['P', 'T', Char.ofNat 0x665, 'S'] = .null ∧
+    bifDuration ['P', '1', 'D', Char.ofNat 0xFF34, '2', 'H'] = .null :=
+  ⟨non_ascii_is_not_a_duration _ (Char.ofNat 0x665) (by simp) (by decide),
+   non_ascii_is_not_a_duration _ (Char.ofNat 0xFF34) (by simp) (by decide)⟩
+
+/-- `@"…"` tries every kind in turn: a text with a character outside ASCII is none of them. -/
+theorem non_ascii_is_not_an_at_literal (zk : List Char → Bool) (cs : List Char) (c : Char) (hc : c ∈ cs)
+    (h : 128 ≤ c.toNat) : atLiteral zk cs = .null := by
+  obtain ⟨h1, h2, h3⟩ := non_ascii_is_not_a_literal zk cs c hc h
+  have h4 := non_ascii_is_not_a_duration cs c hc h
+  have hd : parseDate cs = none := by
+    unfold bifDate at h1
+    split at h1
+    · cases h1
+    · assumption
+  have ht : parseTime zk cs = none := by
+    unfold bifTime at h2
+    split at h2
+    · cases h2
+    · assumption
+  have hdt : parseDateTime zk cs = none := by
+    unfold bifDateTime at h3
+    split at h3
+    · cases h3
+    · assumption
+  unfold atLiteral
+  rw [hd, hdt, ht]
+  exact h4
+
 /-- A sign in front of a field is not part of the grammar (`time("+9:30:15")`, the seeded change
 C14-16): the first character of a time text is a digit. -/
 theorem time_text_starts_with_two_digits (zk : List Char → Bool) (cs : List Char) (t : Time)
@@ -258,6 +409,75 @@ theorem time_text_starts_with_two_digits (zk : List Char → Bool) (cs : List Ch
   exact ⟨h1, h2, _, e, dh1, dh2⟩
 
 example : parseTime (fun _ => true) ['+', '9', ':', '3', '0', ':', '1', '5'] = none := by decide
+
+/-! ## Named zones: the instant a wall-clock time denotes -/
+
+/-- The specification of a literal `local@zone` against the rules of the zone (a table of transitions):
+when `denote` names an instant `t`, it is `local − offset`, the zone's clock at `t` shows exactly the
+written time, and no other instant does. (The correspondence family `zone-instant` holds the code to
+this at every hour and half hour around every transition of 39 zones, with the tables of python's
+`zoneinfo`.) -/
+theorem zone_literal_denotes (z : ZoneRules) (l t o : Int) (h : z.denote l = .instant t o) :
+    t = l - o ∧ z.offsetAt t = o ∧ t + z.offsetAt t = l ∧ ∀ t', t' + z.offsetAt t' = l → t' = t := by
+  unfold ZoneRules.denote at h
+  split at h
+  · cases h
+  · rename_i o' hl
+    injection h with h1 h2
+    subst h2
+    have hm : o' ∈ z.offsetsForLocal l := by rw [hl]; simp
+    have ho := (z.mem_offsetsForLocal l o').1 hm
+    subst h1
+    refine ⟨rfl, ho, by rw [ho]; omega, ?_⟩
+    intro t' ht'
+    have hm' : z.offsetAt t' ∈ z.offsetsForLocal l :=
+      (z.mem_offsetsForLocal_iff_instant l _).2 ⟨t', rfl, ht'⟩
+    rw [hl] at hm'
+    have : z.offsetAt t' = o' := by simpa using hm'
+    omega
+  · cases h
+
+/-- Europe/Warsaw around 2021-03-28 01:00Z (+01:00 → +02:00) and 2021-10-31 01:00Z (back):
+`2021-03-28T01:30` denotes 00:30Z (offset 3600 — the witness of the seeded change C14-18, which gave 7200),
+`02:30` that day is skipped, `2021-10-31T02:30` is repeated. -/
+example :
+    let z : ZoneRules := ⟨3600, [(1616893200, 7200), (1635642000, 3600)]⟩
+    z.denote 1616895000 = .instant 1616891400 3600 ∧ z.denote 1616898600 = .skipped ∧
+    z.denote 1616902200 = .instant 1616895000 7200 ∧ z.denote 1635647400 = .repeated [7200, 3600] := by
+  decide
+
+/-- A wall-clock time is skipped exactly when no instant shows it; every instant shows some wall-clock
+time, under which it is found again (alone, or as one of the repeated readings). -/
+theorem zone_skipped_iff (z : ZoneRules) (l : Int) :
+    z.denote l = .skipped ↔ ∀ t, t + z.offsetAt t ≠ l := by
+  have key : z.offsetsForLocal l = [] ↔ ∀ t, t + z.offsetAt t ≠ l := by
+    constructor
+    · intro h t ht
+      have := (z.mem_offsetsForLocal_iff_instant l _).2 ⟨t, rfl, ht⟩
+      rw [h] at this
+      cases this
+    · intro h
+      cases hl : z.offsetsForLocal l with
+      | nil => rfl
+      | cons o r =>
+        exfalso
+        have hm : o ∈ z.offsetsForLocal l := by rw [hl]; simp
+        obtain ⟨t, _, ht⟩ := (z.mem_offsetsForLocal_iff_instant l o).1 hm
+        exact h t ht
+  unfold ZoneRules.denote
+  constructor
+  · intro h
+    apply key.1
+    split at h
+    · assumption
+    · cases h
+    · cases h
+  · intro h
+    rw [key.2 h]
+
+theorem zone_instant_is_written (z : ZoneRules) (t : Int) :
+    z.offsetAt t ∈ z.offsetsForLocal (t + z.offsetAt t) :=
+  (z.mem_offsetsForLocal_iff_instant _ _).2 ⟨t, rfl, rfl⟩
 
 /-! ## What is not valid is rejected -/
 
@@ -378,22 +598,22 @@ theorem time_from_numbers_exact (h mi sec ns : Nat) (h1 : h < 24) (h2 : mi < 60)
     (h3 : sec < 60) (h4 : ns < 1000000000) :
     timeFromNumbers ⟨h, 0⟩ ⟨mi, 0⟩ ⟨(sec * 1000000000 + ns : Nat), -9⟩ none =
       some ⟨h, mi, sec, ns, .localZ⟩ := by
-  have eh : (Dec.mk h 0).toU8 = h := by
-    unfold Dec.toU8 Dec.toU32 Dec.roundHalfEven; simp
+  have eh : (Temporal.Dec.mk h 0).toU8 = h := by
+    unfold Temporal.Dec.toU8 Temporal.Dec.toU32 Temporal.Dec.roundHalfEven; simp
     rw [if_pos (by omega)]; omega
-  have em : (Dec.mk mi 0).toU8 = mi := by
-    unfold Dec.toU8 Dec.toU32 Dec.roundHalfEven; simp
+  have em : (Temporal.Dec.mk mi 0).toU8 = mi := by
+    unfold Temporal.Dec.toU8 Temporal.Dec.toU32 Temporal.Dec.roundHalfEven; simp
     rw [if_pos (by omega)]; omega
-  have es : (Dec.mk ((sec * 1000000000 + ns : Nat) : Int) (-9)).secondsAndNanos = (sec, ns) := by
-    unfold Dec.secondsAndNanos
+  have es : (Temporal.Dec.mk ((sec * 1000000000 + ns : Nat) : Int) (-9)).secondsAndNanos = (sec, ns) := by
+    unfold Temporal.Dec.secondsAndNanos
     simp
     constructor <;> omega
-  have i1 : (Dec.mk h 0).isInt = true := by unfold Dec.isInt; simp
-  have i2 : (Dec.mk mi 0).isInt = true := by unfold Dec.isInt; simp
-  have r1 : (Dec.mk h 0).inRange 24 = true := by unfold Dec.inRange; simp; omega
-  have r2 : (Dec.mk mi 0).inRange 60 = true := by unfold Dec.inRange; simp; omega
-  have r3 : (Dec.mk ((sec * 1000000000 + ns : Nat) : Int) (-9)).inRange 60 = true := by
-    unfold Dec.inRange; simp; omega
+  have i1 : (Temporal.Dec.mk h 0).isInt = true := by unfold Temporal.Dec.isInt; simp
+  have i2 : (Temporal.Dec.mk mi 0).isInt = true := by unfold Temporal.Dec.isInt; simp
+  have r1 : (Temporal.Dec.mk h 0).inRange 24 = true := by unfold Temporal.Dec.inRange; simp; omega
+  have r2 : (Temporal.Dec.mk mi 0).inRange 60 = true := by unfold Temporal.Dec.inRange; simp; omega
+  have r3 : (Temporal.Dec.mk ((sec * 1000000000 + ns : Nat) : Int) (-9)).inRange 60 = true := by
+    unfold Temporal.Dec.inRange; simp; omega
   unfold timeFromNumbers
   simp only [r1, r2, r3, i1, i2, Bool.and_self, if_true, es, eh, em]
   have hv : isValidTime h mi (sec % 256) = true := by
@@ -408,7 +628,7 @@ example : timeFromNumbers ⟨23, 0⟩ ⟨59, 0⟩ ⟨59999999999, -9⟩ none = s
 /-- Whatever the constructor accepts has an integral hour and minute, a valid time of day and
 an offset within ±14:59:59; everything else is null (full strength since the repair of
 F27-time-round and F27-time-offset). -/
-theorem time_from_numbers_rejects (h mi s : Dec) (off : Option Int) (t : Time)
+theorem time_from_numbers_rejects (h mi s : Temporal.Dec) (off : Option Int) (t : Time)
     (ht : timeFromNumbers h mi s off = some t) :
     h.isInt = true ∧ mi.isInt = true ∧ isValidTime t.h t.mi t.s = true ∧
     (∀ n, off = some n → -53999 ≤ Int.tdiv n 1000000000 ∧ Int.tdiv n 1000000000 ≤ 53999) := by
